@@ -118,3 +118,33 @@ def generate(module, cfg, wd, outname, timeout=1800, env=None, heap='8g', worker
         rows = [json.loads(line) for line in f if line.strip()]
     r['rows'] = rows
     return r
+
+
+_HIST = re.compile(r'^<<"HIST", (".*")>>$')
+
+
+def simulate(module, cfg, wd, num, depth, seed, k=0, timeout=1800, heap='2g'):
+    """One `tlc -simulate` process; returns the JSON histories the specification printed (one per behaviour)
+    and the number of states TLC generated."""
+    meta = os.path.join(wd, f'meta_sim_{k}')
+    shutil.rmtree(meta, ignore_errors=True)
+    rc, out, wall = _tlc(['-workers', '1', '-simulate', f'num={num}', '-depth', str(depth), '-seed', str(seed),
+                          '-metadir', meta, '-noGenerateSpecTE', '-config', cfg, module], timeout=timeout, heap=heap)
+    shutil.rmtree(meta, ignore_errors=True)
+    hists = []
+    for line in out.splitlines():
+        m = _HIST.match(line.strip())
+        if m:
+            hists.append(json.loads(json.loads(m.group(1))))
+    if 'Error:' in out or not hists:
+        tail = '\n'.join(out.splitlines()[-30:])
+        raise MachineryError(f'simulation of {module} / {cfg} failed or printed no behaviour:\n{tail}')
+    m = re.search(r'The number of states generated: (\d+)', out)
+    return {'hists': hists, 'states': int(m.group(1)) if m else 0, 'wall': wall}
+
+
+def simulate_par(module, cfg, wd, procs, num, depth, seed, timeout=1800):
+    with ThreadPoolExecutor(max_workers=procs) as ex:
+        rs = list(ex.map(lambda k: simulate(module, cfg, wd, num, depth, seed * 1000 + k, k, timeout), range(procs)))
+    return {'hists': [h for r in rs for h in r['hists']], 'states': sum(r['states'] for r in rs),
+            'wall': max(r['wall'] for r in rs)}
